@@ -347,6 +347,7 @@ class StreamSpec:
         self.pre = kw.get("pre", [])
         self.params = kw.get("params", {})
         self.paired = kw.get("paired", [])  # [(regex, arg index, expected Lin)] calls that must precede each sink
+        self.index_bounds = kw.get("index_bounds", True)  # every slice expression over a tracked window is an obligation
 
 
 RANGE_FIELDS = {"core::ops::Range": ["start", "end"], "core::ops::RangeFrom": ["start"], "core::ops::RangeTo": ["end"], "core::ops::RangeInclusive": ["start", "end", "exhausted"], "core::ops::RangeToInclusive": ["end"], "core::ops::RangeFull": []}
@@ -921,13 +922,21 @@ class Interp:
                     nhi = lo + f["end"]
             if kind.endswith("RangeFull"):
                 pass
-            # a returning index call proves its bounds check
-            add = [a_le(lo, nlo)]
+            # the index call panics unless lo <= start <= end <= hi: every slice expression of the buffering code is an
+            # obligation (a split that makes update panic breaks "any split gives the one-shot digest" as surely as a wrong
+            # digest does); past the call the bounds hold
+            add = [(a_le(lo, nlo), "slice start is not negative")]
             if nhi is not None:
-                add.append(a_le(nlo, nhi))
+                add.append((a_le(nlo, nhi), "slice start <= end"))
                 if hi is not None:
-                    add.append(a_le(nhi, hi))
-            st.facts = st.facts.add(*add)
+                    add.append((a_le(nhi, hi), "slice end within the sliced buffer"))
+            if self.record and self.spec.index_bounds:
+                for atom, text in add:
+                    if st.facts.entails(atom):
+                        self.oblig.append(("index-bounds", text, line))
+                    else:
+                        self.viol.append(("index-bounds", "%s cannot be shown for this slice expression (it panics otherwise)  [cannot derive %s from the path facts]" % (text, show_atom(atom)), line))
+            st.facts = st.facts.add(*[a for a, _ in add])
             return ret(("win", w[1], nlo, nhi))
         if re.search(r"copy_from_slice$", nm) and is_win(args[0]) and is_win(args[1]):
             d, s_ = args[0], args[1]
